@@ -1,8 +1,6 @@
 package mpx
 
 import (
-	"encoding/binary"
-
 	"github.com/basecomplextech/baselibrary/bin"
 	"github.com/basecomplextech/baselibrary/status"
 	"github.com/basecomplextech/spec/internal/zzverif"
@@ -13,11 +11,6 @@ import (
 // protocol line and a mutually supported version; whatever a peer sends afterwards is answered
 // with a connection error or ignored, never with a panic or a handler run it did not ask for.
 
-func zzFrame(body []byte) []byte {
-	out := make([]byte, 4, 4+len(body))
-	binary.BigEndian.PutUint32(out, uint32(len(body)))
-	return append(out, body...)
-}
 
 // zzFirstFrame builds the peer's first frame: a structurally valid message with an arbitrary code
 // that may or may not carry a connect request offering NV arbitrary versions and NC compressions.
